@@ -1,6 +1,7 @@
 import GqlProofs.ExecBasic
 import GqlProofs.ExecLog
 import GqlProofs.ExecExample
+import GqlProofs.ExecAccurate
 /-! # C20 — Resolvers are invoked once per selected field with accurate parameters
 
 Property theorems only, about the execution-algorithm model `GqlModel.Exec.execute` (`GqlModel/Exec.lean`), for EVERY
@@ -33,10 +34,63 @@ theorem completion_invocations_distinct_below (c : Ctx) (fuel : Nat) (dfr : Bool
     ∃ new, st'.log = new ++ st.log ∧ (∀ e, e ∈ new → Path.Below p e.path) ∧ (new.map (·.path)).Nodup :=
   (logP c fuel).complete _ _ _ _ _ _ _ _ _ _ h
 
+/-- Every resolver invocation is told accurately where it is (`Accurate`, `GqlModel/Invocations.lean`): it is the
+invocation of a selected field (a group of the merged selection) of a legitimate position — the root, or an object
+reached from a field of a legitimate position through thunks, non-null wrappers, list elements and runtime-type
+dispatch — and its parameters are: parent type = the RUNTIME object type of that position; source = that position's
+object value (the individual list element under lists, the root value at the top level); path = the position's path ++
+the response key (alias), list indices included; field name = the field definition's; arguments =
+`getArgumentValues` of the field definition and the FIRST occurrence's argument ASTs under the request's coerced
+variables; occurrences = the number of merged field nodes. -/
+theorem log_entry_accurate (s : Schema) (doc : Document) (opName : String) (inputs : Coerce.Vars)
+    (w : World) (fuel : Nat) (data : Option (List (String × JVal))) (errs : List (Path × Bool)) (log : List LogEntry)
+    (kf : List Path) (h : execute s doc opName inputs w fuel = .result data errs log kf) :
+    ∃ c root sel, requestCtx s doc opName inputs w = some (c, root, sel) ∧
+      ∀ e, e ∈ log → Accurate c root (rootGroups c root sel) e := by
+  obtain ⟨c, root, sel, r, st, hc, hr, -, hlog, -, -⟩ := execute_result h
+  refine ⟨c, root, sel, hc, ?_⟩
+  intro e he
+  rw [hlog, List.mem_reverse] at he
+  exact (accP c root (rootGroups c root sel) fuel).groups _ _ _ _ _ _ _ _ _ _ hr .base (fun g hg => hg)
+    (by intro e he; cases he) e he
+
+/-- the context of `log_entry_accurate` is the request's: schema, the document's fragments, the COERCED variables
+(`getVariableValues` of the selected operation's variable definitions), the world; root type = the schema's root for
+the operation type -/
+theorem request_context_accurate (s : Schema) (doc : Document) (opName : String) (inputs : Coerce.Vars) (w : World)
+    (c : Ctx) (root : String) (sel : SelectionSet) (h : requestCtx s doc opName inputs w = some (c, root, sel)) :
+    c.schema = s ∧ c.frags = doc.fragments ∧ c.world = w ∧
+      ∃ op nm varDefs dirs loc, selectOperation doc opName = .ok (.operation op nm varDefs dirs sel loc) ∧
+        s.rootFor op.toString = some root ∧ Coerce.getVariableValues s varDefs inputs = .ok c.vars := by
+  unfold requestCtx at h
+  split at h
+  · rename_i op nm varDefs dirs sel' loc hsel
+    split at h
+    · cases h
+    · rename_i root' hroot
+      split at h
+      · cases h
+      · rename_i vars hv
+        simp only [Option.some.injEq, Prod.mk.injEq] at h
+        obtain ⟨rfl, rfl, rfl⟩ := h
+        exact ⟨rfl, rfl, rfl, op, nm, varDefs, dirs, loc, hsel, hroot, hv⟩
+  · cases h
+
 /-! ## Non-vacuity -/
 
 open Ex in
 example : obsLog (execute schema doc "Q" varsF world 50) = ["a", "b", "o", "o.y", "w", "w.x", "n", "n.y"] := by
+  decide +kernel
+
+open Ex in
+/-- the parameters on the example: `n` is declared `Node` (interface), the runtime type `O` is what `n.y` is told;
+its source is the object `n` resolved to; the two merged occurrences of `o` are counted -/
+example : (match execute schema doc "Q" varsT world 50 with
+    | .result _ _ log _ => log.map (fun e => (pathStr e.path, e.parentType, e.fieldName, e.occurrences,
+        (match e.source with | .ref id => some id | _ => none)))
+    | _ => []) =
+    [("a", "Query", "a", 1, none), ("b", "Query", "b", 1, none), ("o", "Query", "o", 2, none),
+     ("o.y", "O", "y", 2, some 1), ("n", "Query", "n", 1, none), ("n.y", "O", "y", 1, some 1)] := by
   decide +kernel
 
 end GqlModel.Exec
